@@ -79,6 +79,9 @@ THEOREMS = [
     "Mesa.Cont.C18_cont_move_reject_unchanged",
     "Mesa.Cont.C18_cont_remove_reject_unchanged",
     "Mesa.Cont.C18_cont_setpos_reject_unchanged",
+    "Mesa.Cont.C18_cont_setpos_stepwise",
+    "Mesa.Cont.C18_cont_setpos_reject_state",
+    "Mesa.Cont.C18_cont_setpos_write_first_refuted",
     "Mesa.Cont.C18_cont_iadd_stepwise",
     "Mesa.Cont.C18_cont_iadd_reject_unchanged",
     "Mesa.Cont.C18_cont_iadd_view_getter_refuted",
